@@ -10,9 +10,9 @@ DAG_NOTE = ('Theorems are about the hand-written Lean run model (lean/LabtechMod
             'Trusted: Lean kernel, axioms propext/Classical.choice/Quot.sound, the harness, CPython.')
 TECH = 'Lean 4 proof about a hand-written executable model + checked correspondence (differential execution vs the real code) + implementation-side monitors'
 C = {
- 'C01': ('proof: returns_reference_values - for every acyclic problem whose tasks succeed, every backend, max_workers, max_parallel, sound cache pre-state, bust flag and every fair schedule, run_tasks returns exactly the requested tasks in request order with the value of the plain sequential dependency-first evaluation (refEval); every_yield_is_reference_value for every outcome at any point; plus returned_keys_in_request_order, captured_is_own_outcome. Correspondence + monitor on ~3000 generated one- and two-call cases and ~50 real-backend runs per quick run.', DAG_NOTE),
+ 'C01': ('proof: returns_reference_values / returns_reference_values_from_C10 - for every acyclic problem whose tasks succeed, every backend, max_workers, max_parallel, sound cache pre-state, bust flag and every fair schedule, run_tasks returns exactly the requested tasks in request order with the value of the plain sequential dependency-first evaluation (refEval); every_yield_is_reference_value for every outcome at any point; reference_is_failure_aware_reference ties it to the failure-aware evaluator of C10. Correspondence + monitor on ~3000 generated one- and two-call cases (incl. None-valued results, calls after an aborted call on the same Lab) and ~50 real-backend runs per quick run.', DAG_NOTE),
  'C02': ('proof: start_after_deps - in every run every submit/start/exec of a task is preceded by a yield of each of its direct dependencies; ddeps_complete (every task object found in the parameters is a recorded dependency); dep_result_visible / dep_read_value - the snapshot a worker reads holds v for dependency d iff d was yielded ok v before (failed or died dependency: no entry, the read raises).', DAG_NOTE),
- 'C03': ('proof: submitted_at_most_once, executed_at_most_once, yielded_at_most_once, nothing_outside_plan, plan_only_reachable for whole runs, plus plan_pending_nodup, cached_not_expanded, processed_object_skipped, load_xor_exec, instances_marked.', DAG_NOTE),
+ 'C03': ('proof: submitted_at_most_once, executed_at_most_once, yielded_at_most_once, nothing_outside_plan, plan_is_needed_closure / needed_is_planned (the plan is exactly the closure of the request through tasks not served from cache), cached_deps_untouched, use_cache_fixed_at_plan_time, loaded_iff_cached_beforehand, load_xor_exec, instances_marked for whole runs. An external writer caching a task between planning and submission is outside the models (CacheStable) and covered by monitor-only cases.', DAG_NOTE),
  'C04': ('proof: per-type max_parallel and global max_workers limits are invariants of every reachable state of whole runs (all problems, configurations, cache pre-states, schedules incl. batches and deaths), at loop heads and right after the submit phase; _start_processes tops up to exactly min(max_workers, running+queued); the serial runner has no worker and executes one submission per wait.', DAG_NOTE),
  'C05': ("proof: submit_phase_exhausts_ready (after the submit phase get_ready_tasks is empty in every reachable running state), resting_point_blocked (every pending task is dependency- or type-blocked at rest), no_idle_worker_at_rest, submit_phase_starts_all_ready, not_ready_means_blocked. The counting form 'executing = min(max_workers, runnable)' is not stated as one equation.", DAG_NOTE),
  'C10': ("proof: failure_isolated_status (with continue_on_failure no reachable state ever raises), failure_isolated_returns, no_start_after_raise, fail_fast_raises, raised_stops_loop, failed_task_has_no_result, failure_completes_task. 'Every task not depending on a failed one returns its reference value' is checked by the monitor (failure-aware reference evaluator), not yet a theorem.", DAG_NOTE),
